@@ -275,10 +275,10 @@ seq_m!(seq_m_0_8_4, false, [0, 8, 4]);
 seq_m!(seq_m_0_5_8, true, [0, 5, 8]);
 // @h props=C01,C02,C03,C04,C08,C18 tier=quick flags=leak group=seq note=split_to,drop_sibling,reserve(reclaim)
 seq_m!(seq_m_1_9_5, true, [1, 9, 5]);
-// @h props=C01,C02,C03,C04 tier=thorough flags=leak group=seq note=split_to,put_u8,unsplit
-seq_m!(seq_m_1_4_6, false, [1, 4, 6]);
-// @h props=C01,C02,C03,C04 tier=thorough flags=leak group=seq note=split_off,advance,reserve,unsplit
-seq_m!(seq_m_0_3_5_6, true, [0, 3, 5, 6]);
+// @h props=C01,C02,C03,C04 tier=thorough flags=leak group=seq note=split_to,advance,drop_sibling
+seq_m!(seq_m_1_3_9, false, [1, 3, 9]);
+// @h props=C01,C02,C03,C04,C08 tier=thorough flags=leak group=seq note=split_off,truncate,drop_sibling,reserve(reclaim)
+seq_m!(seq_m_0_2_9_5, true, [0, 2, 9, 5]);
 
 // ================================================================================== Bytes world
 pub struct WorldB {
